@@ -139,6 +139,11 @@ func coordinate(prop, tierName string, seed int64) (*report.Report, error) {
 	}
 	rs = append(rs, extra)
 	MergeResults(r, rs)
+	if prop == "C16" {
+		// part (d) needs no program generator: it runs here, in the coordinator
+		c16HostData(r)
+		r.Space += fmt.Sprintf(" (d) %d host containers whose entries disagree on an unmarked nil-able part (nil vs non-nil pointer / slice / map inside map values, slice elements, nested), each converted 60 times (map order): conv.ValOf rejects them, or every component has its declared type.", len(c16HostInconsistent()))
+	}
 	return r, nil
 }
 
